@@ -3,13 +3,21 @@
 //
 // For every generated pattern that the real meta.Compile dispatches to one of the four strategies, the engine's flags are read
 // by reflection (prefilter, prefilterPartialCoverage, dfa, canMatchEmpty, boundedBacktracker, asciiBoundedBacktracker,
-// anchoredFirstBytes, anchoredSuffix, nfa.IsAlwaysAnchored(), digitPrefilter, digitRunSkipSafe, ahoCorasick, fatTeddyFallback)
+// anchoredFirstBytes, anchoredSuffix, nfa.IsAlwaysAnchored(), digitPrefilter, digitRunSkipSafe, ahoCorasick, fatTeddyFallback,
+// ahoCorasickNested, ahoCorasickMaxLen — the last two travel in the optional trailing `ac` field of the request)
 // and the component oracles are supplied as tables:
 //   * the prefilter's answers come from the REAL objects: digitPrefilter.Find, prefilter.Find / FindMatch / IsComplete /
 //     LiteralLen, ahoCorasick.Find / IsMatch, fatTeddyFallback.Find / FindAt / IsMatch, the FirstByteSet, MaxInputSize();
 //   * `stop` of SearchAtAnchoredStopAt comes from the REAL lazy DFA (there is nothing in `regexp` to brute-force it from);
 //     its `end` is brute-forced and compared with the real DFA's (component contract check);
 //   * the engines (Pike VM, IsMatchAt, FindAt, backtrackers) are brute-forced from `regexp`.
+// The automata of github.com/coregx/ahocorasick (the strategy's, the Fat Teddy fallback, the one inside
+// prefilter.AhoCorasickPrefilter) are checked against the contracts of Cx.Proofs.MetaFind2Lits on their literal lists:
+// EndsFirstOK (Find = an occurrence with the least end among those starting at or after `at`; and, not needed by the proofs, the
+// LONGEST such), AnchOccOK (FindAt answers iff a literal starts there), AcSetOK (maxLen bounds the literals, nested = the naive
+// nesting test = the Lean `hasNestedLiteral`, asked from the driver), regexp = refLit (leftmost start, first literal in list
+// order), fatTeddyFallback != nil only without nesting; prefilter.AhoCorasickPrefilter.Find is compared with the Lean model
+// `ahoPrefilterFind` (`metafind2 acpf`) and with the least start of an occurrence.
 // The Lean driver runs the MODEL (`metafind2 all.<strategy>`); its answers are compared with the real Engine.FindIndices,
 // FindIndicesAt (every offset on short inputs), IsMatch, FindAt (find.go), and — through a simulation of the FindAll loop over the
 // model's findIndicesAtWithState answers — FindAllIndicesStreaming; and the real engine with regexp.
@@ -59,6 +67,108 @@ type m2Target struct {
 	longest bool
 	skip    bool
 	fatFlag bool
+	acNested bool
+	acMaxLen int
+	ahoLits  [][]byte // the literal list of ahoCorasick
+	fatLits  [][]byte // … of fatTeddyFallback
+	acp      *ahocorasick.Automaton // the automaton inside prefilter.AhoCorasickPrefilter
+	acpLits  [][]byte
+	acpNested bool
+	acpMaxLen int
+}
+
+func autoLits(a *ahocorasick.Automaton) [][]byte {
+	var ls [][]byte
+	for i := 0; i < a.PatternCount(); i++ {
+		ls = append(ls, a.Pattern(i))
+	}
+	return ls
+}
+
+// naive twin of prefilter.HasNestedLiteral
+func naiveNested(lits [][]byte) bool {
+	for i, a := range lits {
+		for j, b := range lits {
+			if i != j && len(a) <= len(b) && bytes.Contains(b, a) {
+				return true
+			}
+		}
+	}
+	return false
+}
+
+func litAt(h []byte, l []byte, p int) bool { return p+len(l) <= len(h) && bytes.Equal(h[p:p+len(l)], l) }
+
+// the leftmost-first reference of an alternation of literals: leftmost start, first literal in list order
+func naiveRefLit(lits [][]byte, h []byte, a int) string {
+	for p := a; p <= len(h); p++ {
+		for _, l := range lits {
+			if litAt(h, l, p) {
+				return fmt.Sprintf("%d.%d", p, p+len(l))
+			}
+		}
+	}
+	return "x"
+}
+
+// all occurrences with the least end among those starting at or after a: (least end, starts in increasing order)
+func naiveEndsFirst(lits [][]byte, h []byte, a int) (end int, starts []int) {
+	for e := a; e <= len(h); e++ {
+		for s := a; s <= e; s++ {
+			for _, l := range lits {
+				if s+len(l) == e && litAt(h, l, s) {
+					starts = append(starts, s)
+					break
+				}
+			}
+		}
+		if len(starts) > 0 {
+			return e, starts
+		}
+	}
+	return -1, nil
+}
+
+func naiveAnyAt(lits [][]byte, h []byte, p int) bool {
+	for _, l := range lits {
+		if litAt(h, l, p) {
+			return true
+		}
+	}
+	return false
+}
+
+// checkEndsFirst compares one answer of Automaton.Find with EndsFirstOK; it returns the table entry
+func checkEndsFirst(name string, au *ahocorasick.Automaton, lits [][]byte, h []byte, a int, st *m2Stats, pat string) string {
+	v := "x"
+	m, f := au.Find(h, a)
+	if f {
+		v = fmt.Sprintf("%d.%d", m.Start, m.End)
+	}
+	st.endsFirstChecked++
+	end, starts := naiveEndsFirst(lits, h, a)
+	if a >= len(h) {
+		end, starts = -1, nil // Find answers "not found" for start >= len (no literal is empty)
+	}
+	okSome, okLongest := false, false
+	if !f {
+		okSome, okLongest = end < 0, end < 0
+	} else if end == m.End {
+		for _, s := range starts {
+			if s == m.Start {
+				okSome = true
+			}
+		}
+		okLongest = okSome && starts[0] == m.Start
+	}
+	if !okSome {
+		st.contractEndsFirst++
+		st.cnote("%s.Find pat=%q hay=%q at=%d: %s, least end %d starts %v", name, clipS(pat), clip(h), a, v, end, starts)
+	}
+	if !okLongest {
+		st.contractLongest++
+	}
+	return v
 }
 
 func compileM2(p, variant string) (*m2Target, string) {
@@ -119,6 +229,19 @@ func compileM2(p, variant string) (*m2Target, string) {
 	}
 	if q := fieldPtr(ev, "fatTeddyFallback"); q != nil {
 		t.fat = (*ahocorasick.Automaton)(q)
+		t.fatLits = autoLits(t.fat)
+	}
+	if t.aho != nil {
+		t.ahoLits = autoLits(t.aho)
+	}
+	t.acNested = ev.FieldByName("ahoCorasickNested").Bool()
+	t.acMaxLen = int(ev.FieldByName("ahoCorasickMaxLen").Int())
+	if acp, ok := t.pf.(*prefilter.AhoCorasickPrefilter); ok {
+		pv := reflect.ValueOf(acp).Elem()
+		t.acp = (*ahocorasick.Automaton)(fieldPtr(pv, "ac"))
+		t.acpLits = autoLits(t.acp)
+		t.acpNested = pv.FieldByName("nested").Bool()
+		t.acpMaxLen = int(pv.FieldByName("maxLen").Int())
 	}
 	t.suffix = append([]byte(nil), ev.FieldByName("anchoredSuffix").Bytes()...)
 	t.skip = ev.FieldByName("digitRunSkipSafe").Bool()
@@ -157,6 +280,12 @@ type m2Stats struct {
 	modelVsReal, realVsRegexp, skipped           int
 	contractDigit, contractAnch, contractStop    int // real component != its contract
 	contractPfm, contractAho, contractFat        int
+	endsFirstChecked, contractEndsFirst, contractLongest int // Automaton.Find vs EndsFirstOK / "the longest with the least end"
+	anchOccChecked, contractAnchOcc                  int // Automaton.FindAt vs AnchOccOK
+	setChecked, contractSet                          int // AcSetOK: maxLen, nested (engine fields vs naive vs Lean)
+	refLitChecked, contractRefLit                    int // regexp vs refLit(literal list)
+	acpfChecked, acpfModel, acpfLeast                int // AhoCorasickPrefilter.Find vs the Lean model / vs the least start
+	fatNested                                        int // fatTeddyFallback built for a nested set
 	pfmChecked, ahoChecked, anchChecked          int
 	budgetExhausted, costChecked, costViol       int
 	statsChecked, statsViol                      int
@@ -193,6 +322,19 @@ func (s *m2Stats) add(o *m2Stats) {
 	s.contractPfm += o.contractPfm
 	s.contractAho += o.contractAho
 	s.contractFat += o.contractFat
+	s.endsFirstChecked += o.endsFirstChecked
+	s.contractEndsFirst += o.contractEndsFirst
+	s.contractLongest += o.contractLongest
+	s.anchOccChecked += o.anchOccChecked
+	s.contractAnchOcc += o.contractAnchOcc
+	s.setChecked += o.setChecked
+	s.contractSet += o.contractSet
+	s.refLitChecked += o.refLitChecked
+	s.contractRefLit += o.contractRefLit
+	s.acpfChecked += o.acpfChecked
+	s.acpfModel += o.acpfModel
+	s.acpfLeast += o.acpfLeast
+	s.fatNested += o.fatNested
 	s.pfmChecked += o.pfmChecked
 	s.ahoChecked += o.ahoChecked
 	s.anchChecked += o.anchChecked
@@ -408,15 +550,18 @@ func (t *m2Target) request(h []byte, long bool, st *m2Stats) (req string, q m2Qu
 	if t.aho != nil {
 		vs := make([]string, n+1)
 		for a := 0; a <= n; a++ {
-			vs[a] = "x"
-			if m, f := t.aho.Find(h, a); f {
-				vs[a] = fmt.Sprintf("%d.%d", m.Start, m.End)
-			}
+			vs[a] = checkEndsFirst("ahoCorasick", t.aho, t.ahoLits, h, a, st, t.pat)
 			if !t.longest {
+				// the contract the code as of a92eaaa needed (AhoOK): Find IS the reference search — counted, no longer required
 				st.ahoChecked++
 				if vs[a] != spanStr(first[a]) {
 					st.contractAho++
-					st.cnote("ahoCorasick.Find pat=%q hay=%q at=%d: %s, reference %s", clipS(t.pat), clip(h), a, vs[a], spanStr(first[a]))
+				}
+				// the reference of the alternation of the literal list = regexp
+				st.refLitChecked++
+				if r := naiveRefLit(t.ahoLits, h, a); r != spanStr(first[a]) {
+					st.contractRefLit++
+					st.cnote("refLit pat=%q hay=%q at=%d: %s, regexp %s", clipS(t.pat), clip(h), a, r, spanStr(first[a]))
 				}
 			}
 		}
@@ -429,16 +574,15 @@ func (t *m2Target) request(h []byte, long bool, st *m2Stats) (req string, q m2Qu
 		vs := make([]string, n+1)
 		va := make([]string, n+1)
 		for a := 0; a <= n; a++ {
-			vs[a], va[a] = "x", "x"
-			if m, f := t.fat.Find(h, a); f {
-				vs[a] = fmt.Sprintf("%d.%d", m.Start, m.End)
-			}
+			va[a] = "x"
+			vs[a] = checkEndsFirst("fatTeddyFallback", t.fat, t.fatLits, h, a, st, t.pat)
 			if m, f := t.fat.FindAt(h, a); f {
 				va[a] = fmt.Sprintf("%d.%d", m.Start, m.End)
 			}
-			if !t.longest && n < 64 && a < n && va[a] != spanStr(first[a]) {
+			// HEAD: findTeddy(At) SEARCH with Find; the fallback exists only for sets without nesting: Find = reference
+			if !t.longest && n < 64 && a < n && vs[a] != spanStr(first[a]) {
 				st.contractFat++
-				st.cnote("fatTeddyFallback.FindAt pat=%q hay=%q at=%d: %s, reference %s", clipS(t.pat), clip(h), a, va[a], spanStr(first[a]))
+				st.cnote("fatTeddyFallback.Find pat=%q hay=%q at=%d: %s, reference %s", clipS(t.pat), clip(h), a, vs[a], spanStr(first[a]))
 			}
 		}
 		fat, fatat = sparse(vs, "x"), sparse(va, "x")
@@ -474,6 +618,16 @@ func (t *m2Target) request(h []byte, long bool, st *m2Stats) (req string, q m2Qu
 	}
 	req = strings.Join([]string{"metafind2", "all." + t.strat, t.flags, nums, "*", hx(h), hx(suffix), pike, im, find, dig, anch, pf, pfm,
 		aho, fat, fatat, string(bools), fb}, " ")
+	if os.Getenv("M2_NOAC") == "" { // M2_NOAC=1: sanity check of the harness — the old protocol (the model then assumes nested=0)
+		nested, maxLen := t.acNested, t.acMaxLen
+		if os.Getenv("M2_BADAC") == "nested" { // sanity: tell the MODEL the opposite flag
+			nested = !nested
+		}
+		if os.Getenv("M2_BADAC") == "maxlen" { // sanity: tell the MODEL a bound that is too small
+			maxLen = 1
+		}
+		req += fmt.Sprintf(" %s,%d", b01(nested), maxLen)
+	}
 	return req, q, true
 }
 
@@ -706,6 +860,140 @@ func (t *m2Target) check(hays [][]byte, long bool, d *driver, st *m2Stats, fd *f
 	flush()
 }
 
+// checkLits: the set-level facts (AcSetOK) of the three automata against the naive twins and the Lean definitions, and
+// prefilter.AhoCorasickPrefilter.Find against the Lean model `ahoPrefilterFind` and against "the least start of an occurrence"
+func (t *m2Target) checkLits(hays [][]byte, d *driver, st *m2Stats) {
+	hexList := func(ls [][]byte) string {
+		ss := make([]string, len(ls))
+		for i, l := range ls {
+			ss[i] = hx(l)
+		}
+		return strings.Join(ss, ",")
+	}
+	type set struct {
+		name   string
+		lits   [][]byte
+		nested bool
+		maxLen int
+	}
+	var sets []set
+	if t.aho != nil {
+		sets = append(sets, set{"ahoCorasick", t.ahoLits, t.acNested, t.acMaxLen})
+	}
+	if t.acp != nil {
+		sets = append(sets, set{"AhoCorasickPrefilter", t.acpLits, t.acpNested, t.acpMaxLen})
+	}
+	if t.fat != nil {
+		// the fallback has no flags: compile.go builds it only without nesting; maxLen is not used
+		mx := 0
+		for _, l := range t.fatLits {
+			if len(l) > mx {
+				mx = len(l)
+			}
+		}
+		sets = append(sets, set{"fatTeddyFallback", t.fatLits, false, mx})
+	}
+	var reqs []string
+	for _, s := range sets {
+		reqs = append(reqs, "metafind2 lits nested 0 - "+hexList(s.lits), "metafind2 lits maxlen 0 - "+hexList(s.lits))
+	}
+	if len(reqs) > 0 {
+		ans := d.ask(reqs)
+		st.requests += len(reqs)
+		for i, s := range sets {
+			st.setChecked++
+			mx := 0
+			for _, l := range s.lits {
+				if len(l) > mx {
+					mx = len(l)
+				}
+			}
+			nn := naiveNested(s.lits)
+			if ans[2*i] != b01(nn) || ans[2*i+1] != fmt.Sprint(mx) || s.nested != nn || s.maxLen != mx {
+				st.contractSet++
+				st.cnote("AcSetOK %s pat=%q: engine nested=%v maxLen=%d, naive nested=%v maxLen=%d, Lean nested=%s maxLen=%s", s.name, clipS(t.pat), s.nested, s.maxLen, nn, mx, ans[2*i], ans[2*i+1])
+			}
+			if s.name == "fatTeddyFallback" && nn {
+				st.fatNested++
+			}
+		}
+	}
+	if t.acp == nil {
+		return
+	}
+	reqs = reqs[:0]
+	var qh [][]byte
+	flush := func() {
+		if len(reqs) == 0 {
+			return
+		}
+		ans := d.ask(reqs)
+		st.requests += len(reqs)
+		for i, a := range ans {
+			h := qh[i]
+			got := strings.Split(a, ";")
+			if len(got) != len(h)+1 {
+				st.acpfModel++
+				st.cnote("acpf BAD ANSWER %q pat=%q hay=%q", clipS(a), clipS(t.pat), clip(h))
+				continue
+			}
+			for at := 0; at <= len(h); at++ {
+				st.acpfChecked++
+				real := "x"
+				if p := t.pf.Find(h, at); p >= 0 {
+					real = fmt.Sprint(p)
+				}
+				if got[at] != real {
+					st.acpfModel++
+					st.cnote("AhoCorasickPrefilter.Find model=%s real=%s pat=%q hay=%q at=%d", got[at], real, clipS(t.pat), clip(h), at)
+				}
+				least := "x"
+				for p := at; p < len(h); p++ {
+					if naiveAnyAt(t.acpLits, h, p) {
+						least = fmt.Sprint(p)
+						break
+					}
+				}
+				if real != least {
+					st.acpfLeast++
+					st.cnote("AhoCorasickPrefilter.Find pat=%q hay=%q at=%d: %s, least start of an occurrence %s", clipS(t.pat), clip(h), at, real, least)
+				}
+			}
+		}
+		reqs, qh = reqs[:0], qh[:0]
+	}
+	for _, h := range hays {
+		n := len(h)
+		vs := make([]string, n+1)
+		va := make([]string, n+1)
+		for a := 0; a <= n; a++ {
+			vs[a] = checkEndsFirst("AhoCorasickPrefilter.ac", t.acp, t.acpLits, h, a, st, t.pat)
+			va[a] = "x"
+			m, f := t.acp.FindAt(h, a)
+			if f {
+				va[a] = fmt.Sprintf("%d.%d", m.Start, m.End)
+			}
+			if a < n {
+				st.anchOccChecked++
+				if f != naiveAnyAt(t.acpLits, h, a) {
+					st.contractAnchOcc++
+					st.cnote("ac.FindAt pat=%q hay=%q at=%d: found=%v, a literal starts there: %v", clipS(t.pat), clip(h), a, f, !f)
+				}
+			}
+		}
+		nested := t.acpNested
+		if os.Getenv("M2_BADAC") == "nested" {
+			nested = !nested
+		}
+		reqs = append(reqs, fmt.Sprintf("metafind2 acpf %s,%d %s %s %s", b01(nested), t.acpMaxLen, hx(h), sparse(vs, "x"), sparse(va, "x")))
+		qh = append(qh, h)
+		if len(reqs) >= 2000 {
+			flush()
+		}
+	}
+	flush()
+}
+
 // ---- patterns -------------------------------------------------------------------------------------------------------------
 
 func digitCandidates() []string {
@@ -773,7 +1061,36 @@ func teddyCandidates() []string {
 		}
 		ps = append(ps, strings.Join(wordPool(rng, al, k, 3, maxLen), "|"))
 	}
+	// Fat Teddy sets (33..64 literals) WITHOUT nesting: only these get the small-haystack fallback automaton
+	for i := 0; i < 60; i++ {
+		al := []string{"abcd", "abcde", "rdqs1b", "abcdef"}[i%4]
+		ps = append(ps, strings.Join(noNestPool(rng, al, 33+rng.Intn(32), 3+i%2, 5+i%3), "|"))
+	}
 	return ps
+}
+
+// distinct words none of which occurs inside another one
+func noNestPool(rng *rand.Rand, alpha string, n, minLen, maxLen int) []string {
+	var ws []string
+	for tries := 0; len(ws) < n && tries < 200000; tries++ {
+		l := minLen + rng.Intn(maxLen-minLen+1)
+		b := make([]byte, l)
+		for i := range b {
+			b[i] = alpha[rng.Intn(len(alpha))]
+		}
+		w := string(b)
+		ok := true
+		for _, v := range ws {
+			if strings.Contains(v, w) || strings.Contains(w, v) {
+				ok = false
+				break
+			}
+		}
+		if ok {
+			ws = append(ws, w)
+		}
+	}
+	return ws
 }
 
 func ahoCandidates() []string {
@@ -821,6 +1138,38 @@ func ahoCandidates() []string {
 			}
 		}
 		ps = append(ps, strings.Join(ws, "|"))
+	}
+	// nested sets whose literals are all >= 3 bytes long: these also get prefilter.AhoCorasickPrefilter (the NFA path of Longest())
+	for i := 0; i < 40; i++ {
+		al := alphas[i%len(alphas)]
+		ws := wordPool(rng, al, 66+rng.Intn(30), 4, 7)
+		seen := map[string]bool{}
+		for _, w := range ws {
+			seen[w] = true
+		}
+		for j := 0; j < 8; j++ {
+			w := ws[rng.Intn(len(ws))]
+			lo := rng.Intn(len(w) - 2)
+			hi := lo + 3 + rng.Intn(len(w)-lo-2)
+			v := w[lo:hi]
+			if j%3 == 2 {
+				v = w + string(al[rng.Intn(len(al))])
+			}
+			if !seen[v] {
+				seen[v] = true
+				if rng.Intn(2) == 0 {
+					ws = append(ws, v)
+				} else {
+					ws = append([]string{v}, ws...)
+				}
+			}
+		}
+		ps = append(ps, strings.Join(ws, "|"))
+	}
+	// sets WITHOUT nesting (the automaton's answer is returned as it is), 65+ literals
+	for i := 0; i < 40; i++ {
+		al := alphas[i%len(alphas)]
+		ps = append(ps, strings.Join(noNestPool(rng, al, 65+rng.Intn(40), 2+i%3, 5+i%2), "|"))
 	}
 	return ps
 }
@@ -1079,6 +1428,12 @@ func runMetaFind2(drv string, workers int, only string, listOnly, short, noLong 
 			mark(f[10] == '1', "alwaysAnchored")
 			mark(f[12] == '1', "digitRunSkipSafe")
 			mark(f[14] == '1', "fatTeddyFallback")
+			_, isFat := t.pf.(*prefilter.FatTeddy)
+			mark(isFat, "FatTeddy")
+			mark(t.acp != nil, "AhoCorasickPrefilter")
+			mark(t.acp != nil && t.acpNested, "AhoCorasickPrefilter nested")
+			mark(t.aho != nil && t.acNested, "ahoCorasickNested")
+			mark(t.aho != nil && !t.acNested, "ahoCorasick not nested")
 			mark(!t.mf.lookFree, "look-around")
 			if listOnly {
 				fmt.Printf("use  %-40q %-5s flags=%s suffix=%q litLen=%d\n", clipS(p), t.strat, t.flags, t.suffix, t.litLen)
@@ -1119,6 +1474,9 @@ func runMetaFind2(drv string, workers int, only string, listOnly, short, noLong 
 		rng := rand.New(rand.NewSource(int64(len(t.pat))*7919 + 17))
 		hays := m2Haystacks(t, short || t.variant != "", rng)
 		t.check(hays, false, d, &st, &fd)
+		if t.variant == "" {
+			t.checkLits(hays, d, &st)
+		}
 		var longs [][]byte
 		if t.strat == "digit" && !noLong {
 			longs = m2LongHays(t, rng)
@@ -1153,8 +1511,13 @@ func runMetaFind2(drv string, workers int, only string, listOnly, short, noLong 
 	fmt.Printf("   digitPrefilter.Find != least digit position: %d\n", total.contractDigit)
 	fmt.Printf("   SearchAtAnchoredStopAt: %d calls, end != regexp anchored end: %d, stop outside (at, len]: %d\n", total.anchChecked, total.contractAnch, total.contractStop)
 	fmt.Printf("   Teddy FindMatch != reference (PfMatchOK): %d of %d\n", total.contractPfm, total.pfmChecked)
-	fmt.Printf("   ahoCorasick.Find != reference (AhoOK): %d of %d\n", total.contractAho, total.ahoChecked)
-	fmt.Printf("   fatTeddyFallback.FindAt != reference on haystacks < 64 bytes: %d\n", total.contractFat)
+	fmt.Printf("   Automaton.Find (ahoCorasick, fatTeddyFallback, AhoCorasickPrefilter.ac) vs EndsFirstOK: %d calls, not an occurrence with the least end: %d; not the LONGEST of them: %d\n", total.endsFirstChecked, total.contractEndsFirst, total.contractLongest)
+	fmt.Printf("   Automaton.FindAt vs AnchOccOK (found iff a literal starts there): %d calls, differ: %d\n", total.anchOccChecked, total.contractAnchOcc)
+	fmt.Printf("   AcSetOK (engine nested/maxLen = naive = Lean hasNestedLiteral/litMaxLen): %d sets, differ: %d; fatTeddyFallback built for a nested set: %d\n", total.setChecked, total.contractSet, total.fatNested)
+	fmt.Printf("   regexp != refLit(literal list) (leftmost start, first literal in list order): %d of %d\n", total.contractRefLit, total.refLitChecked)
+	fmt.Printf("   ahoCorasick.Find != reference (the OLD contract AhoOK, no longer required): %d of %d\n", total.contractAho, total.ahoChecked)
+	fmt.Printf("   fatTeddyFallback.Find != reference on haystacks < 64 bytes: %d\n", total.contractFat)
+	fmt.Printf("   AhoCorasickPrefilter.Find: %d calls, Lean model ahoPrefilterFind != real: %d, real != least start of an occurrence: %d\n", total.acpfChecked, total.acpfModel, total.acpfLeast)
 	for _, e := range total.contractEx {
 		fmt.Println("     ", e)
 	}
